@@ -132,7 +132,7 @@ def stats_of(events):
     return traces
 
 
-def v2_property(pid, tier, cfgs, cont, nontrivial, rule, level="model_checking", quick_limit=600, thorough_limit=None, extra=None, free=False, v1kinds=(), v1models=None, simple=False):
+def v2_property(pid, tier, cfgs, cont, nontrivial, rule, level="model_checking", quick_limit=600, thorough_limit=None, extra=None, free=False, v1kinds=(), v1models=None, simple=False, v2rand=False):
     v = Verdict(pid, tier, level)
     rnd = random.Random(seed())
     import time as _t
@@ -168,6 +168,14 @@ def v2_property(pid, tier, cfgs, cont, nontrivial, rule, level="model_checking",
             files.append(os.path.join(fsub, "free_events.ndjson"))
             if free_stats["races"]:
                 v.notes.append("race detector reported %d race(s) in free-running runs (verdict of C20)" % free_stats["races"])
+        if v2rand:
+            for c2 in v2rand_configs(tier):
+                if (c2.get("faults", 0) > 0) != (pid == "C15"):
+                    continue
+                rec = record_v2rand(v, sc, binary, c2, 60 if tier == "quick" else 1500)
+                log("[%s] v2 random %s: %d scheduler events, trace validation drift %d" % (pid, c2["name"], rec["sched_events"], rec["conf"]["drift"]))
+                files.append(rec["obs"])
+                v.cov.setdefault("conformance", {})[c2["name"]] = rec["conf"]
         lap("v2 replays done")
         v1recs = []
         if v1models:
@@ -216,6 +224,11 @@ def v2_property(pid, tier, cfgs, cont, nontrivial, rule, level="model_checking",
                 continue
             reported += 1
             hit = [(c, p) for (a, b, c, p) in offsets if a < t0 <= b]
+            if tr[0].get("cont") == "v2rand":
+                v.violation("%s: monitor Mon_Prio rejects a gated random run of the real v2 code (config %s, run %d, seed %s): %s" % (
+                    pid, (tr[0].get("cfg") or {}).get("name"), tr[0]["path"], tr[0].get("seed"), summarize(pid, tr)),
+                    dict(kind="prio-v2-rand", cfg=tr[0].get("cfg"), run=tr[0]["path"], seed=tr[0].get("seed"), steps=tr[0].get("steps"), observed=tr[:500]))
+                continue
             if tr[0].get("cont") == "simple":
                 v.violation("%s: monitor Mon_Prio rejects a trace recorded from the real simplified discipline (config %s, run %d, seed %s): %s" % (
                     pid, tr[0].get("cfg"), tr[0]["path"], tr[0].get("seed"), summarize(pid, tr)),
@@ -308,7 +321,7 @@ def capind_C01(v, sc, binary):
 
 
 def check_C01(tier):
-    return v2_property("C01", tier, cfgs_basic(tier), "stall", free=True, v1kinds=("dyn", "grace", "stop"), v1models=models_v1_basic, simple=True, extra=capind_C01,
+    return v2_property("C01", tier, cfgs_basic(tier), "stall", free=True, v1kinds=("dyn", "grace", "stop"), v1models=models_v1_basic, simple=True, extra=capind_C01, v2rand=True,
                        nontrivial=lambda t: t["Q"] is not None and t["Q"] == t["reset"]["H"],
                        rule="transition-cover paths of the TLC state graph of each bounded PrioV2 configuration (real divider table), replayed "
                             "gated into the real v2 scheduler, then the stall continuation (inputs kept full, everything received, nothing "
@@ -317,7 +330,7 @@ def check_C01(tier):
 
 
 def check_C02(tier):
-    return v2_property("C02", tier, cfgs_basic(tier), "drain", free=True, v1kinds=("dyn", "grace"), v1models=models_v1_basic, simple=True,
+    return v2_property("C02", tier, cfgs_basic(tier), "drain", free=True, v1kinds=("dyn", "grace"), v1models=models_v1_basic, simple=True, v2rand=True,
                        nontrivial=lambda t: t["OC"] and t["R"] >= 3,
                        rule="same replayed paths, continuation = close all inputs, release and drain everything; verdict by Mon_Prio: per input "
                             "consecutive ordinals, tag = registered priority, nothing missing when Output() closes, nothing received that was "
@@ -325,7 +338,7 @@ def check_C02(tier):
 
 
 def check_C07(tier):
-    return v2_property("C07", tier, cfgs_basic(tier), "drain", free=True, v1kinds=("grace", "dyn"), v1models=models_v1_grace, simple=True,
+    return v2_property("C07", tier, cfgs_basic(tier), "drain", free=True, v1kinds=("grace", "dyn"), v1models=models_v1_grace, simple=True, v2rand=True,
                        nontrivial=lambda t: t["OC"] and t["R"] >= 1,
                        rule="replayed paths end in arbitrary model states (inputs open/closed, items held/unreleased); continuation closes, "
                             "releases and drains; verdict by Mon_Prio: Output()/Err() close only after every input is closed and emptied and "
@@ -396,7 +409,7 @@ def check_C15(tier):
     if tier == "thorough":
         cfgs += [mk("p3ffault", [3, 2, 1], 4, "fair", 1, 1, faults=1), mk("p3rfault", [3, 2, 1], 6, "rate", 1, 1, faults=1),
                  mk("p2revfault", [2, 1], 3, "rev", 2, 2, faults=1)]
-    return v2_property("C15", tier, cfgs, "drain", level="fault_enumeration", v1kinds=("fault",),
+    return v2_property("C15", tier, cfgs, "drain", level="fault_enumeration", v1kinds=("fault",), v2rand=True,
                        nontrivial=lambda t: t["reset"].get("fault"),
                        rule="fault model: TLC corrupts the result of any ONE divider call (over- or under-allocation) at any reachable state of the "
                             "bounded PrioV2 configurations; every such behaviour is in the transition cover and is replayed with the fault injected at "
@@ -423,12 +436,20 @@ def extra_C15(v, sc, binary):
     from pure import run_utils, line_of, tlc_calls
     sub, st = free_v2(sc, binary, v.tier)
     stage_specs(sub)
-    res, viol, drift = tlc_calls(sub, "PureContract", "i", v, ("C15",))
     calls = os.path.join(sub, "contract_calls.ndjson")
+    n_extra = 0
+    with open(calls, "a") as out:  # plus the calls seen by the wrapping dividers of the gated runs of this check (v2 replays, v1 recorder)
+        for root, _, fs in os.walk(sc):
+            for f in fs:
+                if f in ("contract_replay.ndjson", "contract_v1.ndjson"):
+                    for line in open(os.path.join(root, f)):
+                        out.write(line)
+                        n_extra += 1
+    res, viol, drift = tlc_calls(sub, "PureContract", "i", v, ("C15",))
     for inv, idx in viol[:3]:
         c = line_of(calls, idx)
         v.violation("C15: divider called outside its contract: %s" % json.dumps(c), dict(kind="divider-contract", call=c))
-    v.cov["divider_calls_checked"] = st["calls"]
+    v.cov["divider_calls_checked"] = st["calls"] + n_extra
     # constructor clause via the pure engine's PureUtils (C15_new) on the real v2 New
     sub2 = os.path.join(sc, "utils")
     os.makedirs(sub2, exist_ok=True)
@@ -489,7 +510,9 @@ def v1_configs(kind, tier):
     if kind == "dyn":
         return [mk1("v1dyn", [3, 2, 1], {2: 1, 1: 2}, 3, "fair", 4, 1, 5, graceful=True, adds=[[3, 3], [4, 1]], rmvs=[2]),
                 mk1("v1dynrate", [3, 2, 1], {3: 1, 2: 2}, 6, "rate", 4, 2, 6, graceful=True, adds=[[3, 1], [4, 2]], rmvs=[3, 1]),
-                mk1("v1dynunbuf", [3, 2, 1], {2: 1, 1: 2}, 4, "fair", 3, 1, 4, graceful=True, adds=[[3, 3]], rmvs=[1], unbuf=[2], outcap=1, fbcap=1)]
+                mk1("v1dynunbuf", [3, 2, 1], {2: 1, 1: 2}, 4, "fair", 3, 1, 4, graceful=True, adds=[[3, 3]], rmvs=[1], unbuf=[2], outcap=1, fbcap=1),
+                # remove and re-add of the SAME priority (with items of it possibly in flight), and replacement of a drained channel
+                mk1("v1readd", [2, 1], {2: 1, 1: 2}, 4, "fair", 4, 2, 3, graceful=True, adds=[[3, 1], [4, 2]], rmvs=[1])]
     if kind == "grace":
         return [mk1("v1grace", [2, 1], {2: 1, 1: 2}, 3, "rate", 2, 2, 6, graceful=True),
                 mk1("v1gracefair", [3, 2, 1], {3: 1, 2: 2, 1: 3}, 4, "fair", 3, 1, 4, graceful=True, unbuf=[3], outcap=1)]
@@ -597,6 +620,54 @@ def record_simple(binary, sc, cfg, runs, timeout=900, only=0):
             raise Inconclusive("simple recorder died\n" + out[-3000:])
         log("simple recorder for %s ended early: %s" % (cfg["name"], out[-500:].replace("\n", " | ")))
     return dict(obs=f, races=races_in(out), spin=spin, wall=wall)
+
+
+def v2rand_configs(tier):
+    c = [mk("r3unbuf", [3, 2, 1], 4, "fair", 1, 4, unbuf=(2,)), mk("r4rate", [7, 5, 3, 1], 10, "rate", 2, 5, unbuf=(3,)),
+         mk("r2fault", [2, 1], 3, "rate", 1, 4, faults=1, unbuf=(1,)), mk("r5fairlow", [9, 7, 5, 3, 1], 7, "fairlow", 1, 3)]
+    if tier == "thorough":
+        c += [mk("r6rate", [20, 10, 7, 5, 2, 1], 45, "rate", 3, 6, unbuf=(7, 2)), mk("r3fault", [3, 2, 1], 6, "rate", 2, 4, faults=1)]
+    return c
+
+
+def record_v2rand(v, sc, binary, cfg, runs):
+    """gated random schedules of the real v2 code + trace validation against PrioV2 (code -> spec)"""
+    sub = os.path.join(sc, "v2r-" + cfg["name"])
+    os.makedirs(sub, exist_ok=True)
+    stage_specs(sub)
+    cfgp, rows = pm.div_table(binary, cfg, sub)
+    rc, out, wall = run_test(binary, "TestRecordV2$", env=dict(CFG=cfgp, OUT_DIR=sub, V2_RUNS=runs), timeout=900)
+    allf = os.path.join(sub, "v2_events.ndjson")
+    if "RECORDED v2" not in out and (not os.path.exists(allf) or os.path.getsize(allf) == 0):
+        raise Inconclusive("v2 random recorder died\n" + out[-3000:])
+    obsf = os.path.join(sub, "v2_obs.ndjson")
+    n_s = 0
+    with open(allf) as f, open(obsf, "w") as o:
+        for line in f:
+            if line.startswith('{"e":"S"'):
+                n_s += 1
+            elif not line.startswith('{"e":"Free"'):
+                o.write(line)
+    # trace validation
+    name = pm.write_mc(sub, cfg, rows, module="Trace_PrioV2", invariants=["NotStuck", "TraceInvariants"], spec="TSpec")
+    shutil.copy(allf, os.path.join(sub, "trace.ndjson"))
+    r = tlc(sub, name, cfg=name + ".cfg", workers=8, timeout=1500, extra=["-continue"])
+    tool_errors = [l for l in r.out.splitlines() if l.startswith("Error:") and "Invariant" not in l and "behavior up to this point" not in l]
+    if not r.finished or r.distinct == 0 or tool_errors:
+        raise Inconclusive("trace validation TLC failed on %s: %s\n%s" % (name, tool_errors[:2], r.out[-3000:]))
+    v.add_tlc(r, name + " (trace validation of gated random v2 runs against PrioV2)")
+    stuck = {}
+    for inv, t0 in parse_violations(r.out, "t0"):
+        stuck.setdefault(inv, set()).add(t0)
+    where = []
+    for b in r.out.split("Error: Invariant NotStuck is violated")[1:4]:
+        m = re.findall(r"/\\ l = (\d+)", b)
+        if m:
+            where.append(int(m[-1]) + 1)
+    lines = open(allf).readlines()
+    conf = dict(traces=runs, drift=len(stuck.get("NotStuck", ())), spec_invariant_hits=len(stuck.get("TraceInvariants", ())),
+                first_unexplained=[json.loads(lines[w - 1]) for w in where if w <= len(lines)][:3])
+    return dict(obs=obsf, sched_events=n_s, conf=conf, races=races_in(out), wall=wall)
 
 
 def conformance_v1(v, sc, binary, cfg, rec):
